@@ -38,6 +38,7 @@ var c03inits = []string{
 	"(A:0.125,B:0.25,C:0.375,D:0.5);",                                               // star, 4 tips
 	"((A:0,B:0.25)0.9,(C,D:0.5)0.8:0,E:0.625);",                                     // zero and absent lengths
 	"((A[ca]:0.125[ea],B:0.25)ab[cn]:0.5[en],(C:0.375,D:0.5)cd:0.25,E:0.625)r[cr];", // named inner nodes, comments
+	"(A:0.125,(B:0.25)0.9:0.5,(C:0.375)x:0.75,(D:0.5,(E:0.625):0.875):1);",          // single-child inner nodes: two as consecutive children of one node, one inside a clade
 }
 
 // every initial tree is used twice: as delivered by the parser (no index built)
@@ -1559,7 +1560,7 @@ func init() {
 	}
 	register(&Prop{
 		ID: "C03",
-		Rule: "explicit-state BFS over operation histories on the real *tree.Tree: 8 initial trees (unrooted/rooted binary, polytomies, star, zero/absent lengths, named inner nodes + comments) x {as parsed, after ReinitIndexes}; " +
+		Rule: "explicit-state BFS over operation histories on the real *tree.Tree: 9 initial trees (unrooted/rooted binary, polytomies, star, zero/absent lengths, named inner nodes + comments, single-child inner nodes) x {as parsed, after ReinitIndexes}; " +
 			"alphabet = every public editing operation instantiated with all arguments on the current state (c03enum: Reroot at every node, RerootFirst, RerootMidPoint, RerootOutGroup for every outgroup of 1-2 tips, every clade and its complement, an absent name x remove x strict; UnRoot; RemoveTips of every 1-2 tips x revert, only on states free of single-child inner nodes; " +
 			"Collapse{ShortBranches,LowSupport,TopoDepth} at every distinct threshold, RemoveEdges per branch and per ordered pair of inner branches, CollapseClade; Resolve / RotateInternalNodes / ShuffleTips under the answers of their random draws (mcrt.Explore: every answer sequence when there are <= 120 of them [ShuffleTips 24], otherwise <= 1 deviation from the default answers; thorough: 720 [120] and 2 at depth <= 2); AddBipartition per subset of a polytomy; SortNeighborsByTips; ResolveNamedInternalNodes; " +
 			"GraftTreeOnTip per tip x 2 grafts, GraftTipOnEdge per branch, Merge x 3, InsertIdenticalTips/InsertIdenticalTip per tip, RemoveSingleNodes, every NNI of Rearrange kept / undone / two kept in one pass / first undone after the second / first applied after the second, Rename/RenameAuto/RenameRegexp, Clone, SubTree per node, ReinitIndexes); " +
